@@ -274,6 +274,19 @@ def run_names(sc, fl):
     return results
 
 
+def wipe(created):
+    """remove what one paths case put there: files, links, fifos, directories"""
+    import shutil
+    for f in reversed(created):
+        try:
+            if os.path.isdir(f) and not os.path.islink(f):
+                shutil.rmtree(f)
+            else:
+                os.remove(f)
+        except FileNotFoundError:
+            pass
+
+
 def main():
     sc = json.loads(Path(sys.argv[1]).read_text())
     sys.path.insert(0, sc['repo'])
@@ -290,12 +303,18 @@ def main():
         results = []
         created = []
         for case in sc['cases']:
-            for f in created:
-                try:
-                    os.remove(f)
-                except FileNotFoundError:
-                    pass
+            wipe(created)
             created = []
+            for rel in case.get('mkdirs', []):       # a DIRECTORY at that path (it may be called <name>.yaml)
+                p = root / rel
+                if not p.is_dir():
+                    p.mkdir(parents=True)
+                    created.append(p)
+            for rel in case.get('fifos', []):
+                p = root / rel
+                p.parent.mkdir(parents=True, exist_ok=True)
+                os.mkfifo(p)
+                created.append(p)
             for rel in case['files']:
                 p = root / rel
                 p.parent.mkdir(parents=True, exist_ok=True)
@@ -320,6 +339,7 @@ def main():
                 results.append({'err': type(e).__name__, 'msg': str(e)})
             finally:
                 os.chdir(home)
+        wipe(created)
         out['results'] = results
     elif sc['kind'] == 'seq':
         out['results'] = run_seq(sc)
